@@ -22,7 +22,7 @@ FLOORS = {"quick": {"evaluations": 800, "distinct": 300, "outcome:steps": 6000, 
           "thorough": {"evaluations": 20000, "distinct": 2000}}
 POOL = ['x', 'y', 'z', 'w']
 OPS = ['set', 'set', 'set', 'replace', 'bad', 'bad', 'del', 'rename_axis', 'rename_axis_via_var', 'relabel', 'relabel_via_var', 'relabel_attr',
-       'dims', 'set_axis_values', 'set_axis_name', 'set_axis_copy', 'axes_setitem', 'rename_keys', 'rename_axes', 'append_axis']
+       'dims', 'dims_permute', 'set_axis_values', 'set_axis_name', 'set_axis_copy', 'axes_setitem', 'rename_keys', 'rename_axes', 'append_axis']
 
 
 def shards(tier, seed, scale=1.0):
@@ -212,10 +212,26 @@ def gen_history(rng, nsteps, forced_bad=None):
                 steps.append({"op": op, "dim": d, "labels": newl, "kind": k, "form": rng.choice(['list', 'array', 'dict', 'callable']), "by_pos": rng.random() < 0.5})
             if op != 'set_axis_copy':
                 sim.axes[d] = (newl, k)
-        elif op == 'dims':
+        elif op in ('dims', 'dims_permute'):
             if not dims_now:
                 continue
-            new = [sim.fresh(d[0] + 'q') for d in dims_now]
+            if op == 'dims_permute':
+                # the new names overlap the old ones at other positions (swap / rotation / shift with one fresh name):
+                # the final names are distinct, only the in-place renaming passes through duplicates
+                new = list(dims_now)
+                if len(new) >= 2:
+                    r = rng.random()
+                    if r < 0.4:
+                        i, j = rng.sample(range(len(new)), 2)
+                        new[i], new[j] = new[j], new[i]
+                    elif r < 0.7:
+                        new = new[1:] + new[:1]
+                    else:
+                        new = new[1:] + [sim.fresh('s')] if rng.random() < 0.5 else [sim.fresh('s')] + new[:-1]
+                else:
+                    new = [sim.fresh(d[0] + 'q') for d in dims_now]
+            else:
+                new = [sim.fresh(d[0] + 'q') for d in dims_now]
             steps.append({"op": "dims", "new": new})
             m = dict(zip(dims_now, new))
             sim.axes = {m[q]: v for q, v in sim.axes.items()}
